@@ -322,7 +322,11 @@ def attack_one(fx, P, ser, phase, label, data, ending, stall, rec, cfgkey):
              sample={"phase": phase, "item": label, "bytes": len(data), "ending": ending} if rec.evaluations % 700 == 5 else None)
     rec.count("hostile_connections")
     try:
-        c = wire.RawClient(fx.location, timeout=3.0)
+        # (against a TLS daemon every fifth hostile client does not bother with TLS at all: its bytes hit the TLS handshake)
+        plain = fx.ssl and core.h64(data) % 5 == 0
+        if plain:
+            rec.count("plaintext_clients_of_tls_daemon")
+        c = wire.RawClient(fx.location, timeout=3.0, use_ssl=False if plain else None)
     except OSError:
         rec.count("connect_failed")
         return
@@ -472,8 +476,10 @@ def stalled_phase(fx, P, rec, cfgkey, pay):
             if not fx.loop_alive():
                 rec.violation("request-loop-died", "request loop dead while clients stalled in their handshake: %r" % (fx.loop_exc,), pay)
             else:
-                rec.violation("new-clients-blocked-by-stalled-handshake", "with 3 clients stalled in the middle of their handshake (nothing sent / 10 header bytes / half a body) and still connected, only %d of 3 "
+                rec.violation("new-clients-blocked-by-stalled-tls-handshake" if fx.ssl else "new-clients-blocked-by-stalled-handshake", "with 3 clients stalled in the middle of their handshake (nothing sent / 10 header bytes / half a body) and still connected, only %d of 3 "
                               "new clients were served within 12 s (last error %r); busy workers %r of %r (cfg %s)" % (ok, err, fx.busy_count(), P.config.THREADPOOL_SIZE, cfgkey), pay)
+                if fx.ssl:
+                    return True      # (recorded; the rest of this configuration's verdict material is still judged once the stalled clients are gone)
             return False
         rec.count("served_while_handshakes_stalled", ok)
         return True
@@ -486,7 +492,7 @@ def stalled_phase(fx, P, rec, cfgkey, pay):
 
 
 def run_config(P, cfg, rec, r, n_items):
-    fx = fixture.Fixture(servertype=cfg["servertype"], unix=cfg.get("unix", False), COMMTIMEOUT=cfg["commtimeout"], THREADPOOL_SIZE=cfg["pool"], THREADPOOL_SIZE_MIN=2, ITER_STREAMING=True,
+    fx = fixture.Fixture(servertype=cfg["servertype"], unix=cfg.get("unix", False), ssl=cfg.get("ssl", False), COMMTIMEOUT=cfg["commtimeout"], THREADPOOL_SIZE=cfg["pool"], THREADPOOL_SIZE_MIN=2, ITER_STREAMING=True,
                          ITER_STREAM_LINGER=0.2, ITER_STREAM_LIFETIME=1.0)      # abandoned streams expire (housekeeping) while the attack is still going on
     cfgkey = "%s/%s/%s%s" % (cfg["servertype"], cfg["commtimeout"], cfg["pool"], "/unix" if cfg.get("unix") else "")
     pay = {"cfg": cfg}
@@ -617,6 +623,9 @@ def plan(tier, seed):
     # daemons on a unix domain socket
     cfgs.append({"servertype": "multiplex", "pool": 40, "commtimeout": 0.0, "unix": True})
     cfgs.append({"servertype": "thread", "pool": 40, "commtimeout": 0.6, "unix": True})
+    # daemons that speak TLS
+    cfgs.append({"servertype": "thread", "pool": 40, "commtimeout": 0.0, "ssl": True})
+    cfgs.append({"servertype": "multiplex", "pool": 40, "commtimeout": 0.6, "ssl": True})
     reps = 1 if tier == "quick" else 6
     n = 420 if tier == "quick" else 0
     return [{"cfg": c, "rep": i, "n_items": n} for c in cfgs for i in range(reps)]
